@@ -17,6 +17,7 @@ type Clause struct {
 	Expr  *Expr
 	Src   string
 	Loop  int // for invariants
+	Fn    string // for invariants: only for loops of this function (closures: Parent$n); "" = any
 	Line  int
 }
 
@@ -308,6 +309,12 @@ func ParseSpecFile(path string) (*SpecFile, error) {
 				// invariant #k label: expr
 				t := rc.text
 				loop := 1
+				fnq := ""
+				if strings.HasPrefix(t, "@") { // invariant @Func$1 #k label: expr  - only for loops of that function
+					j := strings.IndexAny(t, " \t")
+					fnq = t[1:j]
+					t = strings.TrimSpace(t[j:])
+				}
 				if strings.HasPrefix(t, "#") {
 					j := strings.IndexAny(t, " \t")
 					n, err := strconv.Atoi(t[1:j])
@@ -325,7 +332,7 @@ func ParseSpecFile(path string) (*SpecFile, error) {
 				if lab == "" {
 					lab = fmt.Sprintf("i%d", len(cur.Invariants)+1)
 				}
-				cur.Invariants = append(cur.Invariants, &Clause{Label: lab, Expr: e, Src: rest, Loop: loop, Line: rc.line})
+				cur.Invariants = append(cur.Invariants, &Clause{Label: lab, Expr: e, Src: rest, Loop: loop, Line: rc.line, Fn: fnq})
 			case "let":
 				eq := strings.Index(rc.text, "=")
 				if eq < 0 {
